@@ -313,6 +313,7 @@ func instStoreImmU64Meta(interp *Interpreter, instr *InstrMeta) (ExitReason, Pro
 func instJumpMeta(interp *Interpreter, instr *InstrMeta) (ExitReason, ProgramCounter) {
 	vX := ProgramCounter(instr.Imm[0])
 	reason, newPC := branch(instr.PC, vX, true, interp.Program.Bitmasks, interp.Program.InstructionData)
+	interp.jumped = reason == ExitContinue
 	if reason != ExitContinue {
 		return reason, instr.PC
 	}
@@ -325,6 +326,7 @@ func instJumpIndMeta(interp *Interpreter, instr *InstrMeta) (ExitReason, Program
 	vX := instr.Imm[0]
 	dest := uint32(interp.Registers[rA] + vX)
 	reason, newPC := djump(instr.PC, dest, interp.Program.JumpTable, interp.Program.Bitmasks)
+	interp.jumped = reason == ExitContinue
 	switch reason {
 	case ExitPanic:
 		return reason, instr.PC
@@ -526,6 +528,7 @@ func instImmediateBranchMeta(interp *Interpreter, instr *InstrMeta) (ExitReason,
 	}
 
 	reason, newPC := branch(instr.PC, vY, branchCondition, interp.Program.Bitmasks, interp.Program.InstructionData)
+	interp.jumped = reason == ExitContinue && branchCondition
 	if reason != ExitContinue {
 		return reason, instr.PC
 	}
@@ -1150,6 +1153,7 @@ func instBranchMeta(interp *Interpreter, instr *InstrMeta) (ExitReason, ProgramC
 	}
 
 	reason, newPC := branch(instr.PC, vX, branchCondition, interp.Program.Bitmasks, interp.Program.InstructionData)
+	interp.jumped = reason == ExitContinue && branchCondition
 	if reason != ExitContinue {
 		pvmLogger.Errorf("instBranchMeta branch error at pc: %d, opcode: %s", instr.PC, zeta[opcode(instr.Opcode)])
 		return ExitReason(reason), instr.PC
@@ -1167,6 +1171,7 @@ func instLoadImmJumpIndMeta(interp *Interpreter, instr *InstrMeta) (ExitReason, 
 	// the register update should take place even if the jump panics
 	dest := uint32(interp.Registers[rB] + vY)
 	reason, newPC := djump(instr.PC, dest, interp.Program.JumpTable, interp.Program.Bitmasks)
+	interp.jumped = reason == ExitContinue
 
 	interp.Registers[rA] = vX
 	switch reason {
